@@ -97,11 +97,23 @@ def run(pid, tier, seed):
     if pid == "C02":
         # serde's buffered deserializers (untagged / internally / adjacently tagged, flatten) cannot parse
         # integer map keys or 128-bit integers: outside "types on which serde round-trips" (Appendix A.11)
-        prof = tsgen.Profile(max_depth=3 if tier == "quick" else 4, string_keys_only=True, big_ints=False)
+        prof = tsgen.Profile(max_depth=3 if tier == "quick" else 4, string_keys_only=True, big_ints=False, no_char=True)
         corpus = sem_corpus(seed, tier, family="semd", profile=prof)
     else:
         corpus = sem_corpus(seed, tier)
     run_value_monitor(chk, pid, pid, corpus, seed, tier)
+    if pid == "C02":
+        # property names and tag literals of members with unconventional identifiers must be the ones serde accepts
+        gens = []
+        for i in range(4 if tier == "quick" else 8):
+            prof = tsgen.Profile(max_depth=2, weird_idents=True, p_rename_all=0.9, flatten=False, inline=False, generics=False,
+                                 weird_renames=False, p_attr=0.15, string_keys_only=True, big_ints=False, no_char=True)
+            g = tsgen.Gen(seed * 1000 + 550 + i, "V" + chr(ord("a") + i), prof)
+            for _ in range(30 if tier == "quick" else 150):
+                g.item()
+            g.make_entries()
+            gens.append(g)
+        run_value_monitor(chk, pid, pid, Corpus("semw", gens), seed, tier)
     return chk.finish(min_evaluations=200, min_distinct=20)
 
 
